@@ -363,6 +363,10 @@ def canon_atom(atom: Tuple[str, bool]) -> Tuple[str, bool]:
             left, right, op = right, left, _MIRROR[type(op)]()
         elif isinstance(left, ast.Constant) and not isinstance(right, ast.Constant) and type(op) in (ast.Eq,):
             left, right = right, left
+        if not pol and type(op) in (ast.Lt, ast.LtE):
+            # ordering comparisons are written positively: not (a < b)  ==  b <= a   (total orders; the
+            # operands compared in this code base are ints, lengths and status codes)
+            left, right, op, pol = right, left, (ast.LtE() if isinstance(op, ast.Lt) else ast.Lt()), True
         e = ast.Compare(left=left, ops=[op], comparators=[right])
     out = (norm(e), pol)
     _CANON_CACHE[atom] = out
